@@ -312,7 +312,10 @@ def parse_tu(source, flags, root=None, is_text=False, keep_files=None, tag='tu',
         try:
             with open(cpath, 'rb') as f:
                 decls, macros = pickle.load(f)
-            return TU(decls, root, macros)
+            tu = TU(decls, root, macros)
+            if is_text:
+                tu.src._c['<%s>' % tag] = source.encode()
+            return tu
         except Exception:
             pass
     tmpdir = tempfile.mkdtemp(prefix='verif-sa-', dir=os.environ.get('VERIF_TMP', '/var/tmp'))
